@@ -4,7 +4,7 @@
    in Contract/{CheckProofs,GenProofs}.v. *)
 From Coq Require Import List String.
 From NV Require Import Contract.Data Contract.Gen Contract.Apply Contract.Checks
-  Contract.CheckProofs Contract.GenProofs.
+  Contract.CheckProofs Contract.GenProofs Contract.GenChecksProofs.
 Import ListNotations.
 
 (* Type::simplify never drops a check that can blame the untyped side, for every type *)
@@ -74,3 +74,16 @@ Theorem C02_static_equiv_data : forall T v,
   first_order T = true -> wf_ty T = true -> no_excl T = true -> member T v = true ->
   contract_static_of T = Some CDyn /\ exists v', check T v = Ok v' /\ dv_equiv v' v.
 Proof. exact static_equiv_data. Qed.
+
+(* the checks read off the GENERATED contract skeleton (one clause per internals.ncl function) are
+   the checks read off the type: the statements above are statements about what Type::contract and
+   Type::contract_static generate *)
+Theorem C02_cchecks_subcontract : forall T vars p sy c sy' env kenv,
+  subcontract T vars p sy = Some (c, sy') -> J vars env kenv sy ->
+  sy <= sy' /\ cchecks c p kenv = map erase (checks T p env).
+Proof. exact cchecks_subcontract. Qed.
+
+Theorem C02_static_contract_keeps_negative : forall T c cs, wk T [] = true ->
+  contract_of T = Some c -> contract_static_of T = Some cs ->
+  negs (cchecks cs Pos []) = negs (cchecks c Pos []).
+Proof. exact static_contract_keeps_negative. Qed.
